@@ -16,7 +16,7 @@ from vmc import common
 from vmc.common import Report, pmap
 
 SEGS = ["..", ".", "child", "child/nested", "../root_sibling", "../outside", "in.sql", ""]
-GET_SEGS = ["..", ".", "sub", "index.html", "../static_sibling", "", "%2e%2e", "..."]
+GET_SEGS = ["..", ".", "sub", "index.html", "../static_sibling", "", "static_sibling", "..."]
 ROOT_MODES = ["env-before-import", "root_path-absolute", "root_path-relative"]
 IN_MARK, OUT_MARK = "MARK_IN", "MARK_OUT"
 
@@ -36,12 +36,17 @@ TREE = {
 }
 
 
+def marker_of(rel: str) -> str:
+    """unique per file, so 'outside' can be judged relative to whatever root is current"""
+    return f"{TREE[rel]}_{rel.replace('/', '_').replace('.', '_')}_END"
+
+
 def build_tree(base: str) -> None:
-    for rel, mark in TREE.items():
+    for rel in TREE:
         p = os.path.join(base, rel)
         os.makedirs(os.path.dirname(p), exist_ok=True)
         with open(p, "w") as f:
-            f.write(f"select * from {mark}_{rel.replace('/', '_').replace('.', '_')}")
+            f.write(f"select * from {marker_of(rel)}")
 
 
 def make_base() -> str:
@@ -106,7 +111,7 @@ def gen_requests(base: str, depth: int):
         for L in range(0, depth + 1):
             for combo in itertools.product(GET_SEGS, repeat=L):
                 rel = "/".join(combo)
-                for prefix in ("/", "//", ""):
+                for prefix in ("/", "//", "", base + "/static/", "/" + base + "/static/", base + "/", "/" + base + "/"):
                     for leaf in ("", "/index.html", "/a.js", "/x.js", "/y.js"):
                         reqs.append((mode, "GET", prefix + rel + leaf, None))
         for route in ("/script", "/lineage", "/directory"):
@@ -162,23 +167,30 @@ def do_request(D, method, path, payload):
         return "EXC:" + type(e).__name__, ""
 
 
-def judge(base: str, method: str, path: str, payload, status: str, body: str):
+def judge(base: str, method: str, path: str, payload, status: str, body: str, root_rel: str = "root"):
     """-> list of violation kinds for one response (oracle on disclosure)"""
     bad = []
-    if OUT_MARK.lower() in body.lower():
-        bad.append("content-of-outside-file-disclosed")
+    allowed_root = "static" if method == "GET" else root_rel
+    low = body.lower()
+    for rel in TREE:
+        if not contained(base, allowed_root, rel) and marker_of(rel).lower() in low:
+            bad.append("content-of-outside-file-disclosed")
+            break
     if status != "200":
         return bad
     if method == "GET":
+        # whatever file was served, the only legitimate reading of the request is <static>/<path without leading slashes>
         served = os.path.join("static", path.strip("/"))
         if not contained(base, "static", served):
             bad.append("GET-200-outside-static-folder")
+        elif "mark_" not in low:
+            bad.append("GET-200-but-not-the-static-file")
         return bad
     if method != "POST" or not isinstance(payload, dict):
         return bad
     if path in ("/script", "/lineage"):
         f = payload.get("f")
-        if isinstance(f, str) and f and not contained(base, "root", f):
+        if isinstance(f, str) and f and not contained(base, root_rel, f):
             bad.append("content-route-200-for-path-outside-root")
     elif path == "/directory":
         try:
@@ -188,7 +200,7 @@ def judge(base: str, method: str, path: str, payload, status: str, body: str):
         if not (payload.get("f") or payload.get("d")):
             return bad  # lists the configured default DIRECTORY: allowed by definition
         ids = [data.get("id", "")] + [c.get("id", "") for c in data.get("children", [])]
-        if not all(contained(base, "root", i) for i in ids):
+        if not all(contained(base, root_rel, i) for i in ids):
             bad.append("listing-of-directory-outside-root")
     return bad
 
@@ -201,9 +213,55 @@ def _work(chunk):
     for (method, path, payload) in items:
         status, body = do_request(D, method, path, payload)
         bad = judge(base, method, path, payload, status, body)
-        disclosed = status == "200" and (IN_MARK.lower() in body.lower() or '"children"' in body)
+        disclosed = status == "200" and ("mark_" in body.lower() or '"children"' in body)
         res.append((status, bad, disclosed))
     return res
+
+
+ROOTS = ["root", "root/child", "root_sibling"]
+
+
+def _root_history(task):
+    """one app object, a sequence of root settings (as draw_lineage_graph(f=...) assigns them), a request battery
+    after each setting; containment is judged against the *current* root"""
+    seq, battery = task
+    from pathlib import Path
+
+    D = _setup_mode("root_path-absolute")
+    base = BASE["dir"]
+    bad = []
+    n = served = 0
+    for step, r in enumerate(seq):
+        D.app.root_path = Path(os.path.join(base, r, "x.sql")).parent
+        for (method, path, payload) in battery:
+            status, body = do_request(D, method, path, payload)
+            n += 1
+            served += status == "200"
+            for kind in judge(base, method, path, payload, status, body, root_rel=r):
+                bad.append((kind, step, method, path, payload, status))
+    _STATE["mode"] = None  # the app object is dirty now; the next task reloads it
+    return n, served, bad[:5]
+
+
+def root_histories(rep: Report, base: str, max_len: int, depth: int):
+    battery = []
+    for aname, p in gen_paths(base, depth):
+        battery.append(("POST", "/script", {"f": p}))
+        battery.append(("POST", "/directory", {"d": p}))
+        battery.append(("POST", "/directory", {"f": p}))
+    tasks = []
+    for L in range(2, max_len + 1):
+        for seq in itertools.product(ROOTS, repeat=L):
+            if all(a != b for a, b in zip(seq, seq[1:])):
+                tasks.append((seq, battery))
+    res = pmap(_root_history, tasks, chunk=1)
+    n = served = 0
+    for (seq, _), (k, sv, bad) in zip(tasks, res):
+        n += k
+        served += sv
+        for kind, step, method, path, payload, status in bad:
+            rep.violation("after-root-change-" + kind, {"root_sequence": list(seq), "step": step, "method": method, "path": path, "payload": payload}, {"status": status})
+    return {"root_sequences": len(tasks), "requests": n, "served_200": served, "max_len": max_len, "battery_segments": depth}
 
 
 def run(tier: str, opts: dict) -> int:
@@ -237,7 +295,10 @@ def run(tier: str, opts: dict) -> int:
                 rep.violation(kind, case, {"status": status})
             if n % 50021 == 1:
                 rep.sample({**case, "status": status})
+    hist = root_histories(rep, base, 2 if tier == "quick" else 3, 1 if tier == "quick" else 2)
+    n += hist["requests"]
     rep.coverage.update(
+        root_change_histories=hist,
         evaluations=n,
         distinct_nontrivial=len(nontrivial),
         rule=f"every path of 0..{depth} segments over {SEGS} x 4 anchors x every file really present in the "
